@@ -198,3 +198,181 @@ package larking
 //@   ensures [refused-iff-over-limit] len(b) > o.maxSendMessageSize ==> err != nil && wrlen(dst) == old(wrlen(dst))
 //@   ensures [whole] err == nil ==> len(b) <= o.maxSendMessageSize && wrlen(dst) == old(wrlen(dst)) + len(b) && Appended(dst, b, old(wrlen(dst)))
 //@   ensures [within-limit-attempted] len(b) <= o.maxSendMessageSize ==> wrcalls(dst) == old(wrcalls(dst)) + 1
+
+// ---------------------------------------------------------------------------
+// lexer.go
+
+// Rune classes (ULetter/UNumber are unicode.IsLetter/IsNumber, uninterpreted
+// above 0x7F, exact for ASCII).
+//@ spec IsIdentR(r) = ULetter(r) || UNumber(r) || r == 95 || r == 45
+//@ spec IsLiteralR(r) = IsIdentR(r) || r == 46
+//@ spec IsPathR(r) = IsLiteralR(r) || r == 126 || r == 33 || r == 36 || r == 38 || r == 39 || r == 40 || r == 41
+//@      || r == 42 || r == 43 || r == 44 || r == 59 || r == 61 || r == 64
+
+//@ func isIdent serves C01 C02 C16 C09 pure
+//@   applies IsIdentR
+//@ func isLiteral serves C01 C02 C16 C09 pure
+//@   applies IsLiteralR
+//@ func isPath serves C01 C02 C16 C09 pure
+//@   applies IsPathR
+
+// Lexer representation invariant.
+//@ spec LexInv(l) = l != nil && 0 <= l.start && l.start <= l.pos && l.pos <= len(l.input)
+//@      && 0 <= l.len && l.len <= 64 && 0 <= l.width && l.width <= 4
+
+//@ func (*lexer).next serves C01 C02 C16 C09
+//@   returns (r)
+//@   requires LexInv(l)
+//@   modifies F$lexer.pos, F$lexer.width
+//@   ensures [inv] LexInv(l)
+//@   ensures [eof] old(l.pos) >= len(l.input) ==> r == -1 && l.width == 0 && l.pos == old(l.pos)
+//@   ensures [advance] old(l.pos) < len(l.input) ==> 1 <= l.width && l.pos == old(l.pos) + l.width && r >= 0
+//@   ensures [ascii] old(l.pos) < len(l.input) && l.input[old(l.pos)] < 128 ==> l.width == 1 && r == l.input[old(l.pos)]
+//@   ensures [multibyte] old(l.pos) < len(l.input) && l.input[old(l.pos)] >= 128 ==> r >= 128
+//@        && (forall x :: off(l.input) + old(l.pos) <= x && x < off(l.input) + l.pos ==> raw(l.input)[x] >= 128)
+
+//@ func (*lexer).current serves C09 C16
+//@   requires LexInv(l)
+
+//@ func (*lexer).backup serves C01 C02 C16 C09
+//@   requires LexInv(l) && l.pos - l.width >= l.start
+//@   modifies F$lexer.pos
+//@   ensures [back] l.pos == old(l.pos) - l.width
+
+// Content quantifiers range over the absolute index x of the string's backing
+// array (raw(s)[x], off(s) <= x < off(s)+len(s)) so that they fire on every read.
+//@ spec ValidRun(s, lo, hi, f) = forall x :: off(s) + lo <= x && x < off(s) + hi && raw(s)[x] < 128 ==> apply(f, raw(s)[x])
+
+//@ func (*lexer).acceptRun serves C01 C02 C16 C09
+//@   returns (n)
+//@   requires LexInv(l) && !apply(isValid, -1)
+//@   modifies F$lexer.pos, F$lexer.width
+//@   ensures [inv] LexInv(l)
+//@   ensures [progress] n >= 0 && l.pos >= old(l.pos) && (n == 0 <==> l.pos == old(l.pos))
+//@   ensures [valid-run] ValidRun(l.input, old(l.pos), l.pos, isValid)
+//@   ensures [maximal] l.pos < len(l.input) && l.input[l.pos] < 128 ==> !apply(isValid, l.input[l.pos])
+//@   loop 1 invariant LexInv(l) && i >= 0 && i <= l.pos - old(l.pos) && (i == 0 <==> l.pos == old(l.pos))
+//@   loop 1 invariant ValidRun(l.input, old(l.pos), l.pos, isValid)
+//@   loop 1 decreases len(l.input) - l.pos
+
+//@ func (*lexer).emit serves C01 C02 C16 C09
+//@   returns (err)
+//@   requires LexInv(l)
+//@   modifies F$lexer.len, F$lexer.start, E$token
+//@   ensures [inv] LexInv(l)
+//@   ensures [appended] err == nil ==> l.len == old(l.len) + 1 && l.start == l.pos && l.toks[old(l.len)].typ == typ
+//@        && same(l.toks[old(l.len)].val, l.input[old(l.start):l.pos])
+//@   ensures [frame] forall k :: 0 <= k && k < old(l.len) ==> l.toks[k].typ == old(l.toks[k].typ) && same(l.toks[k].val, old(l.toks[k].val))
+//@   ensures [limit] err != nil ==> old(l.len) >= 64 && l.len == old(l.len) && l.start == old(l.start)
+
+//@ func (*lexer).errUnexpected serves C01 C02 C16 C09
+//@   returns (err)
+//@   requires LexInv(l)
+//@   modifies F$lexer.len, F$lexer.start, E$token
+//@   ensures [inv] LexInv(l) && err != nil
+//@   ensures [frame] forall k :: 0 <= k && k < old(l.len) ==> l.toks[k].typ == old(l.toks[k].typ) && same(l.toks[k].val, old(l.toks[k].val))
+
+//@ func (*lexer).errShort serves C01 C02 C16 C09
+//@   returns (err)
+//@   requires LexInv(l)
+//@   modifies F$lexer.len, F$lexer.start, E$token
+//@   ensures [inv] LexInv(l) && err != nil
+//@   ensures [frame] forall k :: 0 <= k && k < old(l.len) ==> l.toks[k].typ == old(l.toks[k].typ) && same(l.toks[k].val, old(l.toks[k].val))
+
+//@ func (*lexer).tokens serves C01 C09
+//@   requires LexInv(l)
+//@   ensures [view] len(result) == l.len
+
+// Token kinds (lexer.go constants) used in specs.
+//@ spec IsSep(t) = t == tokenSlash || t == tokenVerb
+//@ spec NoSepIn(s) = forall x :: off(s) <= x && x < off(s) + len(s) ==> raw(s)[x] != 47 && raw(s)[x] != 58
+
+// Tokens of a request path: toks[0..n) alternate separator / non-empty segment,
+// stated over adjacent pairs (no parity arithmetic).
+//@ spec PathTok(l, k) = (IsSep(l.toks[k].typ) || l.toks[k].typ == tokenPath || l.toks[k].typ == tokenEOF)
+//@      && (l.toks[k].typ == tokenSlash ==> len(l.toks[k].val) == 1 && l.toks[k].val[0] == 47)
+//@      && (l.toks[k].typ == tokenVerb ==> len(l.toks[k].val) == 1 && l.toks[k].val[0] == 58)
+//@      && (l.toks[k].typ == tokenPath ==> len(l.toks[k].val) >= 1 && NoSepIn(l.toks[k].val))
+//@ spec PathPair(l, k) = (IsSep(l.toks[k].typ) ==> l.toks[k+1].typ == tokenPath)
+//@      && (l.toks[k].typ == tokenPath ==> IsSep(l.toks[k+1].typ) || l.toks[k+1].typ == tokenEOF)
+//@      && l.toks[k].typ != tokenEOF
+//@ spec PathPrefix(l, n) = (forall k :: 0 <= k && k < n ==> PathTok(l, k)) && (forall k :: 0 <= k && k < n-1 ==> PathPair(l, k))
+//@      && (n > 0 ==> IsSep(l.toks[0].typ) || l.toks[0].typ == tokenEOF)
+//@ spec PathToks(l) = l.len >= 1 && PathPrefix(l, l.len) && l.toks[l.len-1].typ == tokenEOF
+
+//@ func lexPathSegment serves C01 C02 C09
+//@   returns (err)
+//@   requires LexInv(l) && l.start == l.pos
+//@   modifies F$lexer.pos, F$lexer.width, F$lexer.len, F$lexer.start, E$token
+//@   ensures [inv] LexInv(l)
+//@   ensures [frame] forall k :: 0 <= k && k < old(l.len) ==> l.toks[k].typ == old(l.toks[k].typ) && same(l.toks[k].val, old(l.toks[k].val))
+//@   ensures [segment] err == nil ==> l.len == old(l.len) + 1 && l.start == l.pos && l.pos > old(l.pos)
+//@        && l.toks[old(l.len)].typ == tokenPath && same(l.toks[old(l.len)].val, l.input[old(l.pos):l.pos])
+//@        && NoSepIn(l.input[old(l.pos):l.pos])
+
+//@ func lexPath serves C01 C02 C09
+//@   returns (err)
+//@   requires LexInv(l) && l.start == 0 && l.pos == 0 && l.len == 0
+//@   modifies F$lexer.pos, F$lexer.width, F$lexer.len, F$lexer.start, E$token
+//@   ensures [inv] LexInv(l)
+//@   ensures [shape] err == nil ==> PathToks(l)
+//@   loop 1 invariant LexInv(l) && l.start == l.pos && PathPrefix(l, l.len)
+//@   loop 1 invariant l.len > 0 ==> l.toks[l.len-1].typ == tokenPath
+//@   loop 1 decreases len(l.input) - l.pos
+
+// Token slices handed around by the matcher. at(toks, x) is the element at the
+// absolute index x of the backing array (off(toks) <= x < off(toks)+len(toks)).
+//@ spec TokOK(t) = (IsSep(t.typ) || t.typ == tokenPath || t.typ == tokenEOF)
+//@      && (t.typ == tokenSlash ==> len(t.val) == 1 && t.val[0] == 47)
+//@      && (t.typ == tokenVerb ==> len(t.val) == 1 && t.val[0] == 58)
+//@      && (t.typ == tokenPath ==> len(t.val) >= 1 && NoSepIn(t.val))
+//@ spec TokPair(a, b) = (IsSep(a.typ) ==> b.typ == tokenPath) && (a.typ == tokenPath ==> IsSep(b.typ) || b.typ == tokenEOF) && a.typ != tokenEOF
+// Shape: a suffix of the tokens of a request path (alternating, EOF last).
+//@ spec Shape(toks) = len(toks) >= 1 && at(toks, off(toks) + len(toks) - 1).typ == tokenEOF
+//@      && (forall x :: {at(toks, x).typ} off(toks) <= x && x < off(toks) + len(toks) ==> TokOK(at(toks, x)))
+//@      && (forall x :: {at(toks, x).typ} off(toks) <= x && x < off(toks) + len(toks) - 1 ==> TokPair(at(toks, x), at(toks, x+1)))
+
+//@ func (tokens).index serves C01 C02 C09 pure
+//@   returns (j)
+//@   ensures [none] j == -1 ==> forall x :: {at(toks, x).typ} off(toks) <= x && x < off(toks) + len(toks) ==> at(toks, x).typ != typ
+//@   ensures [first] j != -1 ==> 0 <= j && j < len(toks) && toks[j].typ == typ
+//@        && (forall x :: {at(toks, x).typ} off(toks) <= x && x < off(toks) + j ==> at(toks, x).typ != typ)
+//@   loop 1 invariant -1 <= rangeindex && rangeindex < len(toks)
+//@   loop 1 invariant forall x :: {at(toks, x).typ} off(toks) <= x && x <= off(toks) + rangeindex ==> at(toks, x).typ != typ
+//@   loop 1 decreases len(toks) - rangeindex
+
+//@ func (tokens).indexAny serves C01 C02 C09 pure
+//@   returns (j)
+//@   ensures [none] j == -1 ==> forall x :: {at(toks, x).typ} off(toks) <= x && x < off(toks) + len(toks) ==> (s & at(toks, x).typ) == 0
+//@   ensures [first] j != -1 ==> 0 <= j && j < len(toks) && (s & toks[j].typ) != 0
+//@        && (forall x :: {at(toks, x).typ} off(toks) <= x && x < off(toks) + j ==> (s & at(toks, x).typ) == 0)
+//@   loop 1 invariant -1 <= rangeindex && rangeindex < len(toks)
+//@   loop 1 invariant forall x :: {at(toks, x).typ} off(toks) <= x && x <= off(toks) + rangeindex ==> (s & at(toks, x).typ) == 0
+//@   loop 1 decreases len(toks) - rangeindex
+
+// rules.go: variable patterns. A pattern alternates segment tokens
+// (literal, *, **) and slashes, starts and ends with a segment token.
+//@ spec IsSeg(t) = t == tokenStar || t == tokenStarStar || t == tokenLiteral
+//@ spec VarWf(v) = v != nil && len(v.toks) >= 1 && IsSeg(at(v.toks, off(v.toks)).typ) && IsSeg(at(v.toks, off(v.toks) + len(v.toks) - 1).typ)
+//@      && (forall x :: {at(v.toks, x).typ} off(v.toks) <= x && x < off(v.toks) + len(v.toks) ==> IsSeg(at(v.toks, x).typ) || at(v.toks, x).typ == tokenSlash)
+//@      && (forall x :: {at(v.toks, x).typ} off(v.toks) <= x && x < off(v.toks) + len(v.toks) - 1 ==>
+//@            (IsSeg(at(v.toks, x).typ) ==> at(v.toks, x+1).typ == tokenSlash) && (at(v.toks, x).typ == tokenSlash ==> IsSeg(at(v.toks, x+1).typ)))
+
+// variable.index returns how many of toks (which start at a path segment) the
+// pattern covers, or -1. The step clauses are the google.api.http semantics of
+// one pattern token: "/" one slash, LITERAL one equal segment, "*" exactly one
+// segment, "**" everything up to the verb or the end.
+//@ func (*variable).index serves C01 C02 C09
+//@   returns (n)
+//@   requires VarWf(v) && Shape(toks) && toks[0].typ == tokenPath
+//@   witness verifWitnessVariableIndex
+//@   ensures [range] n == -1 || (1 <= n && n <= len(toks))
+//@   ensures [boundary] 1 <= n && n < len(toks) ==> toks[n].typ != tokenPath
+//@   loop 1 invariant 0 <= i && i <= len(toks) && -1 <= rangeindex && rangeindex < len(v.toks) && (rangeindex >= 0 ==> i >= 1)
+//@   loop 1 invariant i < len(toks) ==> (toks[i].typ == tokenPath <==> (rangeindex == -1 || v.toks[rangeindex].typ == tokenSlash))
+//@   loop 1 step [slash] v.toks[rangeindex].typ == tokenSlash ==> i == prev(i) + 1 && toks[prev(i)].typ == tokenSlash
+//@   loop 1 step [literal] v.toks[rangeindex].typ == tokenLiteral ==> i == prev(i) + 1 && toks[prev(i)].typ == tokenPath && toks[prev(i)].val == v.toks[rangeindex].val
+//@   loop 1 step [star] v.toks[rangeindex].typ == tokenStar ==> toks[prev(i)].typ == tokenPath && (i == prev(i) + 1 || (i == len(toks) && prev(i) == len(toks) - 2))
+//@   loop 1 step [starstar] v.toks[rangeindex].typ == tokenStarStar ==> prev(i) <= i && (i == len(toks) || toks[i].typ == tokenVerb)
+//@        && (forall x :: {at(toks, x).typ} off(toks) + prev(i) <= x && x < off(toks) + i ==> at(toks, x).typ != tokenVerb)
+//@   loop 1 decreases len(v.toks) - rangeindex
